@@ -350,6 +350,7 @@ class Observer:
         self.conns: dict = {}         # id(conn) -> conn   (every connection that was ever seen)
         self.delivered: dict = {}     # id(conn) -> [(seq, message)]
         self.inits: list = []
+        self.listening: dict = {}
         self.violations: list = []    # (label, tag, info)
         self.slow_listener = False    # the message listener suspends once (a manager awaiting something)
         self.on_message_hook = None
@@ -397,6 +398,9 @@ class Observer:
 
     # ---- clause 1-3: reports move forward, nothing after CLOSED -------------------------------------------
     def state_report(self, conn, state):
+        if isinstance(conn, ListeningConnection):
+            self.listening.setdefault(id(conn), []).append(state)      # not a clause of C10: recorded only
+            return
         self.see(conn)
         seq = self.st.clock.tick()
         hist = self.reports.setdefault(id(conn), [])
@@ -455,12 +459,16 @@ class Observer:
             is_open = any(w.open for w in wires)
             closing = any(w.writer.closed and not w.open for w in wires) and self.last(conn) != ConnectionState.CLOSED
             inreg = any(x is conn for x in reg)
-            if is_open or opening:
-                if not inreg:
-                    out.append((conn, 'missing', 'open' if is_open else 'being_opened'))
-            elif self.last(conn) == ConnectionState.CLOSED:
+            if self.last(conn) == ConnectionState.CLOSED:
+                # CLOSED is final for a peer connection: it must be gone, whatever an orphaned attempt still does,
+                # and it must not own an open transport
                 if inreg:
                     out.append((conn, 'stale', 'reported_closed'))
+                if is_open:
+                    out.append((conn, 'missing', 'open_but_reported_closed'))
+            elif is_open or opening:
+                if not inreg:
+                    out.append((conn, 'missing', 'open' if is_open else 'being_opened'))
             elif closing:
                 pass
             elif inreg:
